@@ -47,7 +47,9 @@ def run(ctx):
                 f"or not by a source, with no consumer / a consumer of one / of two of its outputs; (3) the same with yielded values None / 0 / '' / False "
                 f"(every value, the last value, the surplus value of an N+1 yield, all values of an N-1 yield); (4) hand-built "
                 f"(graph.Node) generators whose output names differ in length / are un-padded numbers / differ in case, declared "
-                f"in sorted, reversed, rotated order, bound key-sorted as cascade documents; constants {consts}; "
+                f"in sorted, reversed, rotated order, bound key-sorted as cascade documents; (5) one callable "
+                f"OBJECT shared by two nodes (and by all cases of the run) that declare 1 / 2 / 3 / 11 outputs or other output names, in "
+                f"both orders; constants {consts}; "
                 "non-trivial = the graph has an edge; graphs are built with fluent.Node/Payload/Action, lowered by graph2job, "
                 "every task run by execute_sequence/run/Memory over a dict-backed shm; TLC evaluates Lowering!Post",
         "clauses": ["tasks_are_not_the_nodes", "edges_are_not_the_inputs", "outputs_are_not_the_declared",
